@@ -227,3 +227,30 @@ fn c18_best_address_is_the_most_voted() {
     assert!(votes_for(&q, &a) == na + 1 && votes_for(&q, &b) == nb, "a vote counts once, for the voted address only");
     core::mem::forget(q);
 }
+
+// ---- C07: a node listed in an answer is always offered to the accumulator -----------------------
+static mut ACC_ADD_CALLS: u32 = 0;
+fn stub_acc_add(_c: &mut ClosestNodes, node: Node) {
+    unsafe { ACC_ADD_CALLS += 1 };
+    core::mem::forget(node);
+}
+
+/// add_candidate hands EVERY node to ClosestNodes::add, however many candidates are already known
+/// and however far the node is: whether it is among the closest is the accumulator's decision (C11),
+/// and a node that is far by XOR distance may still be first in the secure-first order.
+#[kani::proof]
+#[kani::unwind(24)]
+#[kani::stub(ClosestNodes::add, stub_acc_add)]
+fn c07_add_candidate_never_discards_a_node() {
+    let mut q = query(3, id1(0));
+    let mut i = 0u8;
+    while i < 21 {
+        crate::common::verif_kani::closest_nodes::push_raw(&mut q.closest, node_aged(id1(i), SocketAddrV4::new(std::net::Ipv4Addr::new(40, 0, 0, i), 1), 0));
+        i += 1;
+    }
+    let b0: u8 = kani::any();
+    q.add_candidate(node_aged(id1(b0), SocketAddrV4::new(std::net::Ipv4Addr::new(41, 0, 0, 1), 1), 0));
+    assert!(unsafe { ACC_ADD_CALLS } == 1, "C07: every node listed in an answer is offered to the lookup's accumulator");
+    kani::cover!(b0 == 0xFF);
+    core::mem::forget(q);
+}
